@@ -1375,6 +1375,10 @@ impl<'p> Harness<'p> {
                         OState::InUse => ("C07", "moved-between-stabilises"),
                         _ => ("C10", "lifecycle"),
                     };
+                    if self.obs[oi].state == OState::Created {
+                        // C07 states this too: unusable until it has been through one stabilise
+                        self.fail("C07", "new-observer-has-a-value", format!("observer o{oi}.{ci} on #{t} has not been through a stabilise yet but returned {got:?}, expected {want:?}"));
+                    }
                     self.fail(p, c, format!("observer o{oi}.{ci} on #{t} in state {:?} returned {got:?} between stabilises, expected {want:?}", self.obs[oi].state));
                 }
             }
